@@ -5,6 +5,7 @@ import (
 	"encoding/base64"
 	"encoding/xml"
 	"fmt"
+	"github.com/privacybydesign/gabi/internal/simhook"
 	"io"
 	"os"
 	"strconv"
@@ -422,6 +423,7 @@ loop: // we need this label to continue the for loop from within the select belo
 				safeprimes = append(safeprimes, p) // include p as it might match with future safe primes
 				continue loop
 			}
+			simhook.Yield("generateSafePrimePair:before-close-stop")
 			close(stop) // We have enough, stop safeprime.GenerateConcurrent()
 			return p, q, nil
 
